@@ -58,30 +58,26 @@ func (d *Pegnetd) GetPegNetRateAverages(ctx context.Context, height uint32) (Avg
 		}
 	}
 
-	switch {
-	//   If the LastAveragesHeight is out of range given our current height, we just need to load
-	//     all the values
-	case d.LastAveragesHeight+1 < height || d.LastAveragesHeight > height:
-		for k, v := range ratesOverPeriod {
-			if v != nil {
-				ratesOverPeriod[k] = ratesOverPeriod[k][:0]
-			}
+	// The window [height-AveragePeriod+1, height] is always rebuilt from the database.
+	// Extending the window of the previous call by one height trimmed it by count and not by
+	// height: after a block without rates a long running node averaged over older heights than
+	// a freshly started node, so conversion pricing depended on when the daemon was restarted
+	// (and on API requests that reset the cache).
+	for k, v := range ratesOverPeriod {
+		if v != nil {
+			ratesOverPeriod[k] = ratesOverPeriod[k][:0]
 		}
-		startHeightS := int64(height) - (int64(AveragePeriod)) + 1 // startHeight is AveragePeriod before height+1
-		//                                                            (add 1 so the block at height is included)
-		if startHeightS < 1 { //                                    If AveragePeriod blocks don't exist,
-			startHeightS = 1 //                                      then flour the start to 1
-		}
+	}
+	startHeightS := int64(height) - (int64(AveragePeriod)) + 1 // startHeight is AveragePeriod before height+1
+	//                                                            (add 1 so the block at height is included)
+	if startHeightS < 1 { //                                    If AveragePeriod blocks don't exist,
+		startHeightS = 1 //                                      then flour the start to 1
+	}
 
-		startHeight := uint32(startHeightS)
+	startHeight := uint32(startHeightS)
 
-		for h := startHeight; h <= height; h++ { //            Collect rates over the blocks (including height)
-			collectRatesAtHeight(h) //                           and add them to ratesOverPeriod
-		}
-
-	//   If all we need is the next height, then only collect that height.
-	case d.LastAveragesHeight+1 == height:
-		collectRatesAtHeight(height) //                         Add the current height to the dataset so far
+	for h := startHeight; h <= height; h++ { //            Collect rates over the blocks (including height)
+		collectRatesAtHeight(h) //                           and add them to ratesOverPeriod
 	}
 
 	for k, v := range ratesOverPeriod { //                        The average rate is zero for any asset without
